@@ -44,6 +44,8 @@ pub struct VisitorScript {
     /// Answer Skip (documented as having no effect on non-directories) when
     /// an error is reported instead of an entry.
     pub skip_on_error: bool,
+    /// Answer Quit at `quit_at` and at every later visit (so several workers answer Quit).
+    pub quit_sticky: bool,
 }
 
 #[derive(Clone, Debug, PartialEq, Eq, PartialOrd, Ord)]
@@ -135,6 +137,12 @@ fn builder(base: &Path, tree: &TreeSpec, cfg: &WalkCfg) -> WalkBuilder {
     b.hidden(cfg.hidden);
     b.ignore(cfg.ignore_files);
     b.git_ignore(cfg.ignore_files);
+    if cfg.custom_ignore {
+        b.add_custom_ignore_filename(".myignore");
+    }
+    if cfg.sort_names {
+        b.sort_by_file_name(|a, b| a.cmp(b));
+    }
     b.require_git(false);
     b.parents(false);
     b.max_depth(cfg.max_depth);
@@ -222,7 +230,7 @@ pub fn run_parallel(base: &Path, case: &Case) -> RunResult {
                         }
                     }
                 }
-                if script.quit_at == Some(idx) {
+                if script.quit_at == Some(idx) || (script.quit_sticky && script.quit_at.map_or(false, |q| idx >= q)) {
                     state = WalkState::Quit;
                 }
                 state
@@ -298,7 +306,7 @@ fn gen_strategy(rng: &mut Rng) -> Strategy {
 fn gen_case_c07(sub: u64, thorough: bool) -> Case {
     let mut rng = Rng::new(sub);
     let tree = gen_tree(&mut rng.fork("tree"), TreeMode::Plain);
-    let threads = if thorough && rng.chance(1, 5) { 5 + rng.below(4) } else { 2 + rng.below(3) };
+    let threads = if thorough && rng.chance(1, 5) { 5 + rng.below(4) } else if rng.chance(1, 12) { 1 } else { 2 + rng.below(3) };
     let mut cfg = WalkCfg { threads, ..WalkCfg::default() };
     let mut tree = tree;
     if rng.chance(1, 6) {
@@ -327,11 +335,16 @@ fn gen_case_c07(sub: u64, thorough: bool) -> Case {
                 _ => rng.below(n_expected.max(1)),
             };
             visitor.quit_at = Some(q);
+            visitor.quit_sticky = rng.chance(1, 3);
         }
         _ => {
-            // part C: skip a subset of directories
+            // part C: skip a subset of directories - and of files, for which the answer is
+            // documented to have no effect
             for n in &tree.nodes {
                 if matches!(n.kind, NodeKind::Dir) && rng.chance(1, 3) {
+                    visitor.skip.insert(n.path.clone());
+                }
+                if matches!(n.kind, NodeKind::File(_)) && rng.chance(1, 6) {
                     visitor.skip.insert(n.path.clone());
                 }
             }
@@ -408,6 +421,20 @@ fn gen_case_c06(sub: u64, thorough: bool) -> Case {
         cfg.override_glob = Some(["!d1/", "*.x", "!f1*", "d0/", "!l*"][rng.below(5)].to_string());
     }
     cfg.type_x = rng.chance(1, 8);
+    cfg.sort_names = rng.chance(1, 6);
+    let mut tree = tree;
+    if rng.chance(1, 6) {
+        // the tree's ignore files under a custom name that the builder is told about
+        cfg.custom_ignore = true;
+        for n in tree.nodes.iter_mut() {
+            if matches!(n.kind, NodeKind::Text(_)) && (n.path.ends_with("/.ignore") || n.path.ends_with("/.gitignore")) {
+                let dir = n.path[..n.path.rfind('/').unwrap()].to_string();
+                n.path = format!("{dir}/.myignore");
+            }
+        }
+        let mut seen = BTreeSet::new();
+        tree.nodes.retain(|n| seen.insert(n.path.clone()));
+    }
     // With a size limit both walkers stat every file; that stat failing for one file (it was
     // listed, then cannot be examined) must not make either of them drop it.
     let mut stat_fault = None;
@@ -420,7 +447,9 @@ fn gen_case_c06(sub: u64, thorough: bool) -> Case {
     Case {
         tree,
         cfg,
-        visitor: VisitorScript::default(),
+        // answering Skip to a reported error is documented to have no effect, so the comparison
+        // with the single-threaded walker (which has no visitor) stands
+        visitor: VisitorScript { skip_on_error: rng.chance(1, 3), ..VisitorScript::default() },
         sched_seed: rng.next(),
         strategy: gen_strategy(&mut rng),
         replay: vec![],
@@ -563,7 +592,7 @@ fn check_c06(case: &Case, base: &Path, r: &RunResult, serial: &[Seen]) -> Option
         return Some(Verdict { class, summary: format!("parallel and serial walkers disagree: {d}") });
     }
     // independent listing, when no rule-based filtering is active
-    if !case.cfg.ignore_files && !case.cfg.hidden && case.cfg.override_glob.is_none() && !case.cfg.type_x {
+    if !case.cfg.ignore_files && !case.cfg.hidden && case.cfg.override_glob.is_none() && !case.cfg.type_x && !case.cfg.custom_ignore {
         let model = model_listing(base, &case.tree, &case.cfg);
         let mm = multiset(&model);
         if let Some(d) = diff_multisets(&sm, &mm, "walkers", "listing") {
@@ -631,7 +660,7 @@ fn case_to_json(case: &Case) -> Value {
         "engine": "walksim",
         "tree": case.tree.to_json(),
         "cfg": case.cfg.to_json(),
-        "visitor": { "quit_at": case.visitor.quit_at, "skip": case.visitor.skip.iter().collect::<Vec<_>>(), "skip_on_error": case.visitor.skip_on_error },
+        "visitor": { "quit_at": case.visitor.quit_at, "skip": case.visitor.skip.iter().collect::<Vec<_>>(), "skip_on_error": case.visitor.skip_on_error, "quit_sticky": case.visitor.quit_sticky },
         "sched": {
             "seed": case.sched_seed,
             "strategy": case.strategy.name(),
@@ -651,6 +680,7 @@ fn case_from_json(v: &Value) -> Case {
             quit_at: v["visitor"]["quit_at"].as_u64().map(|x| x as usize),
             skip: v["visitor"]["skip"].as_array().map(|a| a.iter().filter_map(|s| s.as_str().map(String::from)).collect()).unwrap_or_default(),
             skip_on_error: v["visitor"]["skip_on_error"].as_bool().unwrap_or(false),
+            quit_sticky: v["visitor"]["quit_sticky"].as_bool().unwrap_or(false),
         },
         sched_seed: v["sched"]["seed"].as_u64().unwrap_or(1),
         strategy: Strategy::parse(v["sched"]["strategy"].as_str().unwrap_or("default")).unwrap_or(Strategy::Default),
